@@ -108,6 +108,21 @@ func c06Collections(c *core.Ctx) []c06Coll {
 		cellShapes = append(cellShapes, c06Shape{fmt.Sprintf("cell-loop-%d", i), func() s2.Shape { return s2.LoopFromCell(s2.CellFromCellID(id)) }, polyLoops, false})
 	}
 	out = append(out, c06Coll{"cell-boundary-loops", cellShapes})
+	// polygons with an edge that crosses a whole cube face without having a vertex on it
+	// ((10,40) on face 0 to (2,140) on face 3 runs across face 1): the cell relations of cells on the
+	// middle face depend on an edge none of whose endpoints is on that face
+	for i, tri := range [][3][2]float64{{{10, 40}, {2, 140}, {-40, 90}}, {{10, 40}, {2, 140}, {60, 90}}} {
+		tri := tri
+		mkLoop := func() *s2.Loop {
+			l := s2.LoopFromPoints([]s2.Point{lattice.LL(tri[0][0], tri[0][1]), lattice.LL(tri[1][0], tri[1][1]), lattice.LL(tri[2][0], tri[2][1])})
+			l.Normalize()
+			return l
+		}
+		out = append(out, c06Coll{fmt.Sprintf("three-face-edge-%d", i), []c06Shape{
+			{"polygon with an edge across face 1", func() s2.Shape { return s2.PolygonFromLoops([]*s2.Loop{mkLoop()}) }, polyLoops, false},
+			{"loop with an edge across face 1", func() s2.Shape { return mkLoop() }, polyLoops, false},
+		}})
+	}
 	// a small dense loop inside a loop that covers whole cube faces: while the index is built the
 	// interior tracker is inside a shape across ranges of cells that hold no edges at all, and the
 	// first cell with edges after such a range may start exactly where the range ends
